@@ -56,6 +56,7 @@ _REQ = {
     "nearmiss:underscore-dot": 1000,
     "padded_valid_parts": 500,
     "rgb24_gray_diagonal": 2560,
+    "directed_whitespace_control": 20000,
     "padded:space": 2000,
     "padded:tab": 2000,
     "padded:newline": 2000,
@@ -104,8 +105,12 @@ ASSUMES = [
     "without leading zeros> (<=87 at depth 88), #<3 hex>, #<6 hex>, g<0..100>, g#<2 hex>; hex digits in either case; "
     "foreground = comma separated parts; any number of blanks, tabs and newlines around a part is layout and is ignored "
     "(measured: the unchanged tree accepts pads of 1..1000 of each at every depth and builds the compact spec), so a "
-    "padded foreground must be accepted AND equal its compact spelling; other whitespace characters around a part and "
-    "any whitespace around the background (the tree does not strip it) are grey zone; background = one colour token",
+    "padded foreground must be accepted AND equal its compact spelling; other whitespace characters around a part are "
+    "grey zone; background = ONE colour token, never stripped: whitespace/control characters around or inside it make "
+    "it an unknown colour (must raise AttrSpecError) except where int() swallows them inside a numeric token ('h5 ', "
+    "'#12\\n' read as one number: grey zone)",
+    "a 24-bit colour is exactly '#' + six hex digits; a '#' token longer than 4 characters that is not canonical is "
+    "never a colour (no int() grey zone for that form)",
     "strings that only Python int() leniency makes readable AND whose value under int() lies inside the documented range "
     "of their form (h+5, h-0, h 5, h1_0, leading zeros, 0x, non-ASCII decimal digits, 'g#f'; also an empty part next to a "
     "colour) are in a grey zone; a negative or out-of-range value (h-5, g-3, g#-f, #-12) or a string int() cannot read "
@@ -176,6 +181,14 @@ def classify_color(tok: str):
         if len(rest) == 1:
             return ("lenient", "g#-one-digit", int(rest, 16))
         return ("junk", "g#-wrong-length-hex")
+    # A 24-bit colour is exactly '#' + six hex digits (the library's own contract since fix 56fbed7: "everything else
+    # falls through to Unrecognised color"); int() leniency exists only where ONE number is read (hN, gN, g#xx, #rgb),
+    # so a '#' token longer than 4 characters that is not canonical is never a colour.
+    if pre == "#" and len(tok) > 4:
+        core = "".join(c for c in rest if not (c.isspace() or ord(c) < 32))
+        if len(core) == 6 and all(c in HEXD for c in core):
+            return ("junk", "#-rrggbb-with-whitespace-or-control-characters")
+        return ("junk", "#-malformed-long")
     # int() tolerates any Unicode blank around digits and reads decimal digits of any script: grey zone, not junk
     if all((c in LENIENT) or (not c.isascii() and (c.isdigit() or c.isspace())) for c in rest):
         # Only VALUE-PRESERVING leniency is grey: the string must denote, under Python's own int() reading, a number
@@ -247,13 +260,12 @@ def parse_fg(s: str):
 def parse_bg(s: str):
     if s in SETTINGS:
         return ("invalid", "setting-in-background")
+    # the background is ONE colour token and is not stripped (measured: the unchanged tree rejects every padded
+    # background name / default / #rrggbb); whitespace is tolerated only where int() swallows it inside a numeric token
+    # ('h5 ', '#12\n' read as one number: grey zone through classify_color)
     c = classify_color(s)
-    if s.strip() != s:
-        # blanks around a background: not documented either way (the foreground parts are stripped, the background is not)
-        c2 = classify_color(s.strip())
-        if (c[0] == "junk" and c2[0] == "junk") or s.strip() in SETTINGS:
-            return ("invalid", "unknown-colour:" + c[1] if s.strip() not in SETTINGS else "setting-in-background")
-        return ("lenient", "background-whitespace")
+    if s.strip() in SETTINGS:
+        return ("invalid", "setting-in-background")
     if c[0] == "junk":
         return ("invalid", "unknown-colour:" + c[1])
     if c[0] == "lenient":
@@ -448,7 +460,7 @@ def judge(fg: str, bg: str, depth: int, C: Counter | None = None, level: int = 0
         return out
     if expect == "reject":
         w = why.split(":")
-        wc = w[1] if w[0] in ("fg", "bg") else w[0]
+        wc = (w[1] + (":" + w[2] if len(w) > 2 else "")) if w[0] in ("fg", "bg") else w[0]
         tk = (tokshape(fg) if w[0] == "fg" else tokshape(bg, False)) if w[0] in ("fg", "bg") else "-"
         bad(f"C18|construct|invalid-accepted|{wc}|token={tk}|depth={depth}", f"invalid input accepted ({why})")
         return out
@@ -1108,6 +1120,25 @@ def run(ctx):
                 evaluate(ctx, f"{lpad}{base}{rpad}", "", d)
                 evaluate(ctx, f"bold,{lpad}{base}{rpad},underline", "dark blue" if d >= 16 else "", d)
                 ctx.count("padded_valid_parts", 2)
+    # directed core (never skipped): every kind of valid colour token with one whitespace / control character
+    # appended, prepended and embedded, foreground and background, every depth
+    ws_chars = ["\n", "\r", "\t", " ", "\x0b", "\x0c", "\x00", "\x1c", "\x1f", "\x7f", "\x85", "\xa0", "\u2028", "\u3000", "\n\n", " \n"]
+    ws_tokens = ["default", *BASIC, "h0", "h9", "h87", "h255", "g0", "g7", "g100", "g#00", "g#c8", "#000", "#9af", "#fff",
+                 "#000000", "#123456", "#12ab9f", "#FFFFFF"]
+    for tok in ws_tokens:
+        for ch in ws_chars:
+            idx += 1
+            if not ctx.mine(idx):
+                continue
+            mid = max(1, len(tok) // 2)
+            for variant in (tok + ch, ch + tok, tok[:mid] + ch + tok[mid:]):
+                for d in DEPTHS:
+                    evaluate(ctx, variant, "", d)
+                    evaluate(ctx, "", variant, d)
+                    evaluate(ctx, f"bold,{variant}", variant, d)
+                    ctx.count("directed_whitespace_control", 3)
+    if ctx.shard == 4 % ctx.nshards:
+        ctx.sample({"fg": "default", "bg": "#123456\n", "depth": 256})
     # layout sweep: pad lengths x pad kinds x sides x the longest token of every form / a setting, settings before/after
     pad_tokens = ["light magenta", "default", "h255", "#12ab9f", "#9af", "g100", "g#c8", "dark gray", ""]
     pad_kinds = {"space": " ", "tab": "\t", "newline": "\n", "mixed": "\n \t "}
